@@ -79,10 +79,13 @@ theorem ctor_run (n : Nat) (s : St) :
     Visitor.ctor n s = (Self.this, { s with size := n, valid := true, gbl := 0 }) := rfl
 theorem onField_run (v : View) (t : Tag) (s : St) : Visitor.onField v t s = (false, s) := rfl
 
-theorem onData_run (p ls sb : Nat) (t : Tag) (s : St) :
-    Visitor.onData (Skel.dataView p ls sb) t s =
-      (!((s.read .dataLength p ls).validate sb).valid, (s.read .dataLength p ls).validate sb) := by
-  simp [Visitor.onData, bind, pure, Skel.dataView, vas_run]
+theorem onData_run (p ls len : Nat) (t : Tag) (s : St) :
+    Visitor.onData (Skel.dataView p ls len) t s =
+      (if !(s.validate ls).valid then (true, s.validate ls)
+       else (!(((s.validate ls).read .dataLength p ls).validate len).valid,
+             ((s.validate ls).read .dataLength p ls).validate len)) := by
+  simp only [Visitor.onData, bind, pure, Skel.dataView, vas_run]
+  cases h : (s.validate ls).valid <;> simp [h, vas_run]
 
 theorem onEntry_run (ch : St → St × Bool) (c : Cursor) (s : St) :
     Visitor.onEntry (Skel.entryView ch) c s =
@@ -135,13 +138,20 @@ theorem stop_aux (X : St) (A B : St × Bool) (h : A = B) :
     (if (!X.valid) = true then (X, !X.valid) else A) = (if (!X.valid) = true then (X, true) else B) := by
   cases X.valid <;> simp [h]
 
+theorem stop_aux2 (X Y : St) (F G : St → St × Bool) (h : ∀ t, F t = G t) :
+    (if (if (!X.valid) = true then (true, X) else (!Y.valid, Y)).1 = true
+      then ((if (!X.valid) = true then (true, X) else (!Y.valid, Y)).2, (if (!X.valid) = true then (true, X) else (!Y.valid, Y)).1)
+      else F (if (!X.valid) = true then (true, X) else (!Y.valid, Y)).2) =
+    (if (!X.valid) = true then (X, true) else if (!Y.valid) = true then (Y, true) else G Y) := by
+  cases X.valid <;> cases Y.valid <;> simp [h]
+
 theorem datas_hand (start wbl : Nat) (blk : List Access) (first : Bool) (ds : List DataL) (s : St) :
     Skel.datas Visitor.ops bo buf start wbl blk first ds s = visitDatas bo buf start wbl blk first ds s := by
   induction ds generalizing first s with
   | nil => rfl
   | cons d ds ih =>
     simp only [Skel.datas, visitDatas, Skel.callback, Visitor.ops, onData_run]
-    exact stop_aux _ _ _ (ih _ _)
+    exact stop_aux2 _ _ _ _ (fun t => ih false t)
 
 theorem entry_hand (ec : Bool) (ch : Nat → Nat → List Access → St → St × Bool) (bl : Nat) (s : St) :
     Skel.entry Visitor.ops ec ch bl s = onEntryWith ec ch bl s := by
@@ -200,14 +210,18 @@ theorem visitDatas_size_le (start wbl : Nat) (blk : List Access) (first : Bool) 
     simp only [visitDatas]
     have h0 : (if first then (s.readAll blk).setPtr (start + wbl) else s).size = s.size := by cases first <;> rfl
     generalize (if first then (s.readAll blk).setPtr (start + wbl) else s) = s0 at h0 ⊢
-    generalize dataSizeBytes d.lenSize (rd bo buf s0.ptr d.lenSize) = sb
-    have h1 := validate_size_le ((((s0.read .dataLength s0.ptr d.lenSize).setPtr (s0.ptr + sb)).step).read .dataLength s0.ptr
-      d.lenSize) sb
-    have h2 : ((((s0.read .dataLength s0.ptr d.lenSize).setPtr (s0.ptr + sb)).step).read .dataLength s0.ptr d.lenSize).size
-        = s.size := h0
+    generalize rd bo buf s0.ptr d.lenSize = len
+    generalize dataSizeBytes d.lenSize len = sb
+    have h1 : ((((s0.read .dataLength s0.ptr d.lenSize).setPtr (s0.ptr + sb)).step).validate d.lenSize).size ≤ s.size :=
+      Nat.le_trans (validate_size_le _ _) (Nat.le_of_eq h0)
+    have h2 : ((((((s0.read .dataLength s0.ptr d.lenSize).setPtr (s0.ptr + sb)).step).validate d.lenSize).read .dataLength
+        s0.ptr d.lenSize).validate len).size ≤ s.size :=
+      Nat.le_trans (validate_size_le _ _) h1
     split
-    · exact Nat.le_trans h1 (Nat.le_of_eq h2)
-    · exact Nat.le_trans (ih false _) (Nat.le_trans h1 (Nat.le_of_eq h2))
+    · exact h1
+    · split
+      · exact h2
+      · exact Nat.le_trans (ih false _) h2
 
 theorem loopE_size_le (body : St → St × Bool) (hb : ∀ s, (body s).1.size ≤ s.size) :
     ∀ k s, (loopE lim body k s).size ≤ s.size := by
